@@ -21,8 +21,10 @@ Kinds == {"div0", "mod0", "shiftneg", "index", "slice", "notcallable", "nargs", 
 Ctxs  == {"plain", "try-catch", "try-finally", "catch-rethrow", "callback", "callback-try",
           \* the failure strikes on a child VM (pooled or not) that has its own handler, or on a child VM the
           \* host starts after Run returned: a child VM recovers exactly like the VM it was made for
-          "try-in-callback", "try-in-callback-unpooled", "host-invoke", "host-invoke-unpooled"}
-NoHandlerCtxs == {"plain", "host-invoke", "host-invoke-unpooled"}
+          "try-in-callback", "try-in-callback-unpooled", "host-invoke", "host-invoke-unpooled",
+          \* the failure strikes again after it was caught once in the same run (recovery is not used up)
+          "catch-then-catch", "catch-then-plain", "loop-catch"}
+NoHandlerCtxs == {"plain", "host-invoke", "host-invoke-unpooled", "catch-then-plain"}
 Depths == {"shallow", "nearframes", "nearstack"}
 
 VARIABLES sp, fi, handlers, err, done, kind, ctxt, touched
@@ -64,7 +66,7 @@ Matrix == {[kind |-> k, ctx |-> x, depth |-> d,
             \* near a limit the VM may report the limit instead of the failure: only totality is required there
             \* (the same holds for the two limit kinds themselves: the property allows delivery to a handler or an error from Run)
             expect |-> IF d # "shallow" \/ k \in {"framelimit", "stacklimit", "wideexpr", "framelimit-catch"} THEN "value-or-error"
-                       ELSE IF x \in {"try-catch", "try-finally", "callback-try", "try-in-callback", "try-in-callback-unpooled"} THEN (IF x = "try-finally" THEN "error-after-finally" ELSE "value")
+                       ELSE IF x \in {"try-catch", "try-finally", "callback-try", "try-in-callback", "try-in-callback-unpooled", "catch-then-catch", "loop-catch"} THEN (IF x = "try-finally" THEN "error-after-finally" ELSE "value")
                        ELSE "error"] : k \in Kinds, x \in Ctxs, d \in Depths}
 ASSUME CSVWrite("%1$s", <<ToJson(Matrix)>>, IOEnv.OUT)
 =============================================================================
